@@ -26,6 +26,7 @@ type Flt struct {
 	R    *big.Rat
 	F    float64
 	T    *Term
+	Sp   uint8 // real mode, zero-denominator exploration: concrete +Inf / -Inf / NaN (special.go)
 }
 
 type Bool struct {
@@ -267,6 +268,9 @@ func (ex *Exec) intTerm(i Int) *Term {
 }
 
 func (ex *Exec) fltTerm(f Flt) *Term {
+	if f.Sp != spFin {
+		panic(unsupported{"special float value (" + spName(f.Sp) + ") in a term context"})
+	}
 	if f.T != nil {
 		return f.T
 	}
@@ -330,6 +334,9 @@ func (ex *Exec) mergeVal(c *Term, a, b Value) (Value, bool) {
 		y, ok := b.(Flt)
 		if !ok {
 			return nil, false
+		}
+		if x.Sp != spFin || y.Sp != spFin {
+			return x, x.Sp == y.Sp // specials are concrete: different ones cannot be merged
 		}
 		return ex.fltOf(ex.TS.Ite(c, ex.fltTerm(x), ex.fltTerm(y)), int(x.Bits)), true
 	case Bool:
@@ -442,6 +449,9 @@ func sameVal(a, b Value) bool {
 	case Flt:
 		y, ok := b.(Flt)
 		if !ok {
+			return false
+		}
+		if x.Sp != y.Sp {
 			return false
 		}
 		if x.T != nil || y.T != nil {
